@@ -407,3 +407,25 @@ _extend("C18", "one case in five has a rate constant in the thousands (the diffe
 _extend("C19", "one lineage case in four runs on a simulator object that has produced a lineage of the same model before.")
 _extend("C12", "one assignment rule in four is written with minimal parentheses and a unary minus in front of a power "
                "(exp(-A^2), -A^2 + f, -(A - B)^2).")
+
+# fifth wave of seeded changes (DESIGN 13.2)
+_extend("C02", "one rule-surface case in three makes the expression the rate of an ODE rule (one Euler step).")
+_extend("C03", "the safe interface's derivative is also compared at states with absent species, where every reaction that "
+               "consumes an absent species is at rest (its guard cannot matter).")
+_extend("C06", "under the safe delay simulator one delayed part in two also consumes a species that no rate law reads (its count "
+               "may be over-drawn; conservation and the firing / delivery accounting must still hold).")
+_extend("C07", "the time grid is, for half of the models, a strided view or a table column; for half of the models the caller "
+               "reverses and extends the list returned by get_species_list() before simulating.")
+_extend("C09", "one case in three simulates through a pre-built interface (Interface=) instead of Model=.")
+_extend("C10", "one delayed part with a delayed reactant in two has no delayed product at all (its delivery counter is a delayed "
+               "reactant that counts down from 10^6).")
+_extend("C11", "one constant-volume case in four requests unevenly spaced times, some closer together than the volume tick.")
+_extend("C12", "one general rate in four carries a factor exp(-A^2) written with minimal parentheses.")
+_extend("C13", "one global parameter in six is negative.")
+_extend("C14", "one case in six builds the model call by call with refused create_reaction calls in between; one in six has a "
+               "named parameter that is exactly zero; every global parameter of the document must carry a value.")
+_extend("C16", "whole-number prior arguments are written as Python ints in half of the specifications; one gamma prior in six "
+               "has a whole-number shape 10..30 and rate 5..20.")
+_extend("C18", "half of the models with a rule-assigned species carry a second rule listed before the rule it reads from.")
+_extend("C19", "one statistical splitter case in four uses amounts one ulp below a whole number.")
+_extend("C20", "the starting time is offset from the multiples of the grid step by 0, 1/8, 1/4 or 1/2 of a step.")
